@@ -19,8 +19,9 @@ CHECKS = {
               " repeat: 1..3 unary methods called again and again (2..6 rounds of 1..4 concurrent calls, every topology, with or without metadata and deadline): every call gets its own handler's reply to its own request, each handler runs once per call - the main sub-check gives every call a method of its own."
               " net (http): the harness counts the POSTs the receiving end refused with 400 Bad Request; every envelope of these calls was produced by the library itself, so a refusal is reported as a violation even when the time budget has run out."
               " In a third of the demux/proxy cases every client first makes a warm-up call and the Demux is told to Cancel its key (demux_key_returns): the calls of the case are the first envelopes of the key's next life."
-              " repeat: in a third of the cases the application keeps one reply object per concurrent slot and hands it to Invoke again in every round, and every third call is answered with the empty message."),
-        jobs=[dict(test="TestC01", quick=1920, thorough=24000), dict(test="TestC01Net", quick=64, thorough=1000, shards=4), dict(test="TestC01Reuse", quick=200, thorough=2000, shards=4), dict(test="TestC01Repeat", quick=1600, thorough=16000)],
+              " repeat: in a third of the cases the application keeps one reply object per concurrent slot and hands it to Invoke again in every round, and every third call is answered with the empty message."
+              " long-lived: 1..3 slow unary calls stay in flight on a connection while 300..1500 other calls complete on it (1..6 at a time); then the slow handlers are released: every call returns its own handler's reply, every handler ran once."),
+        jobs=[dict(test="TestC01Long", quick=48, thorough=600, shards=8), dict(test="TestC01", quick=1920, thorough=24000), dict(test="TestC01Net", quick=64, thorough=1000, shards=4), dict(test="TestC01Reuse", quick=200, thorough=2000, shards=4), dict(test="TestC01Repeat", quick=1600, thorough=16000)],
         floors={"TestC01:reordered=true": 0.15, "TestC01:topo=proxy": 0.1, "TestC01:topo=demux": 0.1, "TestC01:ser=true": 0.25, "TestC01:time_passes=true": 0.3, "TestC01:stats=true": 0.1, "TestC01Repeat:repeat.topo=proxy": 0.08, "TestC01Repeat:repeat.plain_calls=true": 0.2},
         assumptions=COMMON_ASSUMPTIONS,
     ),
@@ -52,8 +53,9 @@ CHECKS = {
               " Status messages range from empty to 280 KB (ASCII and multi-byte, around 16 KiB and 64 KiB)."
               " cut: a handler of any of the four kinds fails, and the caller's transport read fails (9 error values incl. bare io.EOF; write side failing or not; caller parked in its receive or arriving later) while the envelope with that status is still in the transport: the caller must not be told the call succeeded."
               " parked-send: a client-streaming or bidirectional handler returns (nil or any failure kind) while a further send of the caller, issued from a second goroutine, is parked inside the transport write; the caller's receive must report the handler's outcome, whatever the parked send returns afterwards."
-              " late: the request carries a 30 ms grpc-timeout as plain metadata (the caller's context has no deadline); the handler of any kind waits for its context to end and then returns nil or a failure of any kind; directly, through a proxy or a demux: the caller observes exactly that outcome."),
-        jobs=[dict(test="TestC03", quick=4800, thorough=40000), dict(test="TestC03Foreign", quick=800, thorough=10000, shards=4), dict(test="TestC03Race", quick=400, thorough=5000, shards=4), dict(test="TestC03Cut", quick=800, thorough=10000, shards=4), dict(test="TestC03ParkedSend", quick=800, thorough=10000, shards=4), dict(test="TestC03Late", quick=800, thorough=10000, shards=4), dict(test="FuzzC03", kind="fuzz", quick=0, thorough=90)],
+              " late: the request carries a 30 ms grpc-timeout as plain metadata (the caller's context has no deadline); the handler of any kind waits for its context to end and then returns nil or a failure of any kind; directly, through a proxy or a demux: the caller observes exactly that outcome."
+              " pace: the C05 pace cases (both sides sending back to back, each side receiving at its own pace, pauses up to 7 s of virtual time) with handlers that end in a drawn status: the caller gets every message and then exactly that status."),
+        jobs=[dict(test="TestC03", quick=4800, thorough=40000), dict(test="TestC03Foreign", quick=800, thorough=10000, shards=4), dict(test="TestC03Race", quick=400, thorough=5000, shards=4), dict(test="TestC03Cut", quick=800, thorough=10000, shards=4), dict(test="TestC03ParkedSend", quick=800, thorough=10000, shards=4), dict(test="TestC03Late", quick=800, thorough=10000, shards=4), dict(test="TestC03Pace", quick=640, thorough=8000, shards=4), dict(test="FuzzC03", kind="fuzz", quick=0, thorough=90)],
         floors={"TestC03:pos=mid-stream": 0.03, "TestC03:intercept=true": 0.1, "TestC03:api_order=close-twice": 0.05, "TestC03Foreign:foreign.via=proxy": 0.08, "TestC03Foreign:foreign.via=demux": 0.08, "TestC03Cut:cut.err=eof": 0.05, "TestC03Cut:cut.kind=unary": 0.1},
         assumptions=COMMON_ASSUMPTIONS,
     ),
@@ -65,7 +67,8 @@ CHECKS = {
               "Non-trivial = a -bin value with NUL or non-UTF-8 bytes, or a key with >=2 values, or >=2 set calls; distinct = canonical case hash."
               " reuse: one header MD, one trailer MD and one outgoing-context MD object are kept by the application and passed again in each of 2..5 calls (together with per-call sets); each call must observe exactly its own sets and the application's objects must be left unchanged."
               " servectx: the context passed to Serve is cancelled while the connection keeps serving; handlers started afterwards must still see the request metadata."
-              " servectx: the streaming handlers served after the Serve context has ended also call SetHeader, SendHeader (whose write may be refused: their context is done) and SetTrailer; a caller whose stream completes must see all of it."),
+              " servectx: the streaming handlers served after the Serve context has ended also call SetHeader, SendHeader (whose write may be refused: their context is done) and SetTrailer; a caller whose stream completes must see all of it."
+              " Callers ask for the trailers twice in a row; both answers must be the same."),
         jobs=[dict(test="TestC04", quick=4800, thorough=50000), dict(test="TestC04Foreign", quick=800, thorough=10000, shards=4), dict(test="FuzzC04", kind="fuzz", quick=0, thorough=90), dict(test="TestC04Conc", quick=300, thorough=3000, shards=4), dict(test="TestC04Reuse", quick=800, thorough=8000), dict(test="TestC04ServeCtx", quick=480, thorough=4800)],
         floors={"TestC04:md-nontrivial": 0.3, "TestC04:hdr-via=sendheader": 0.03, "TestC04:hdr-via=first-message": 0.05, "TestC04:hdr-via=with-trailer": 0.05, "TestC04:unary": 0.1},
         assumptions=COMMON_ASSUMPTIONS,
@@ -159,7 +162,8 @@ CHECKS = {
               " Ending resetfail: the response write that fails is that of a reset (answer to a body for an unknown stream)."
               " Stream kind sbig is opened with a saturating grpc-timeout (99999999H / 2562048H / 99999999M)."
               " Goroutines: besides the census at the end of the case, a census is taken as soon as Serve has returned and all handlers have finished, while the transport (including writes parked inside it) and the context Serve was called with are still untouched: no goroutine may be running library code then."
-              " unread: 1..2 streaming handlers (and 0..2 unary ones) wait on their context without receiving while the scripted caller sends 0..3 messages and possibly its half-close to the first stream, so that the read loop is parked handing an envelope to a stream that is not listening; then Stop, or a failing response write: Serve returns, every handler's context is cancelled, every handler has finished, no goroutine of the connection remains."),
+              " unread: 1..2 streaming handlers (and 0..2 unary ones) wait on their context without receiving while the scripted caller sends 0..3 messages and possibly its half-close to the first stream, so that the read loop is parked handing an envelope to a stream that is not listening; then Stop, or a failing response write: Serve returns, every handler's context is cancelled, every handler has finished, no goroutine of the connection remains."
+              " unread: in a third of the cases the Server also serves a second connection with a waiting stream handler; its transport read fails while the first connection's read loop is parked: its Serve call returns and its handler is cancelled."),
         jobs=[dict(test="TestC10", quick=4800, thorough=30000), dict(test="TestC10Unread", quick=960, thorough=10000, shards=4), dict(test="FuzzC10", kind="fuzz", quick=0, thorough=90)],
         floors={"TestC10:ending=readfail": 0.1, "TestC10:ending=writefail": 0.1, "TestC10:ending=stop": 0.12, "TestC10:parked-in-send": 0.1, "TestC10:orphan=true": 0.2, "TestC10Unread:unread.read_loop_parked=true": 0.3},
         assumptions=COMMON_ASSUMPTIONS + ["cancelling the context passed to Serve is not among the endings the property lists and is not generated"],
@@ -208,7 +212,8 @@ CHECKS = {
               " abandon: 2..6 unary calls issued one after the other, all but the last cancelled while their (slow, context-ignoring) handler runs; handlers released in a drawn order; the surviving call gets its own reply, never the late reply of an abandoned one."
               " pace: one bidirectional stream on each of 1..3 connections, both sides sending 0..8 messages back to back while each side receives at its own pace (pauses of 0..60 ms before every receive, so envelopes back up for longer than any timer inside the library); in a bubble (virtual time) and, as a separate job, in real time (pauses capped at 25 ms): each side receives exactly the other side's messages in order, then io.EOF."
               " shared-md: every handler passes the application's one fixed header object (and one fixed trailer object) to SetHeader/SetTrailer and then adds per-call values with a second call; 2..8 calls of all kinds, 1..3 at a time: every caller sees the fixed values once and exactly its own per-call values, and the shared objects are unchanged."
-              " On the server side the scripted caller numbers its calls from a drawn base: 100, 0xD7FE, 0xD800, 0x10FFFE, 0x110000, 2^32, 2^63 or 2^64-9 (ids a client reaches late in a long-lived connection's life, or far out in the uint64 range); the enumeration rotates through the same bases."),
+              " On the server side the scripted caller numbers its calls from a drawn base: 100, 0xD7FE, 0xD800, 0x10FFFE, 0x110000, 2^32, 2^63 or 2^64-9 (ids a client reaches late in a long-lived connection's life, or far out in the uint64 range); the enumeration rotates through the same bases."
+              " A quarter of the pace cases run through a proxy (one client)."),
         jobs=[dict(test="TestC05Enum", kind="enum", quick=1, thorough=1), dict(test="TestC05", quick=3200, thorough=20000), dict(test="TestC05IDs", quick=1280, thorough=8000), dict(test="TestC05Pace", quick=1200, thorough=12000, shards=4), dict(test="TestC05PaceReal", quick=96, thorough=1600, shards=8), dict(test="TestC05SharedMD", quick=480, thorough=6000, shards=4),
               dict(test="TestC05History", kind="enum", quick=1, thorough=1, shards=1), dict(test="TestC05Reuse", quick=200, thorough=2000, shards=4), dict(test="TestC05Left", quick=1600, thorough=16000), dict(test="TestC05Order", quick=1600, thorough=16000), dict(test="TestC05Abandon", quick=800, thorough=8000)],
         floors={"TestC05:side=client": 0.25, "TestC05:side=server": 0.25, "TestC05:pooled_payloads=true": 0.3, "TestC05IDs:slow_handlers=true": 0.3, "TestC05IDs:spin_barrier=true": 0.4, "TestC05Pace:pace.slow_receiver=true": 0.5, "TestC05:high_ids=true": 0.2},
@@ -273,7 +278,8 @@ CHECKS = {
               " Spoofed envelopes optionally carry sender-chosen route fields (a route record ending in the sender's own name, the victim's name, the proxy's name; a return route)."
               " The bad peer's connection is either attached by the peer or dialled on demand by the proxy."
               " odd-route: between honest rounds c0 sends one envelope with its true source but unusual routing fields - destination = the proxy's own name / empty / c0 itself / a 70 KB name / c1, return route absent / an empty non-nil list / [\"\"] / [proxy's name] / [c0] / [c1]; the proxy must survive, deliver it exactly where the route leads (or nowhere), and keep serving."
-              " reattach with in_callback: the owner brings the failed peer back by calling AddClient from inside the disconnect callback."),
+              " reattach with in_callback: the owner brings the failed peer back by calling AddClient from inside the disconnect callback."
+              " badpeer role many-slow-dials: envelopes for twenty different destinations whose dials are all still in progress; honest traffic between the attached peers is not delayed."),
         jobs=[dict(test="TestC17", quick=3200, thorough=30000), dict(test="FuzzC17", kind="fuzz", quick=0, thorough=90)],
         floors={"TestC17:mode=cancel": 0.1, "TestC17:mode=reattach/old_first=false/read": 0.02, "TestC17:mode=spoof/other-source": 0.025, "TestC17:mode=badpeer/slow-failing-dial": 0.012, "TestC17:badpeer.deaf_read=true": 0.05, "TestC17:mode=attach-race": 0.1, "TestC17:spoof.route_fields=true": 0.05, "TestC17:badpeer.dialled=true": 0.05, "TestC17:mode=odd-route": 0.1, "TestC17:odd.next=empty-list": 0.01},
         assumptions=COMMON_ASSUMPTIONS,
@@ -308,8 +314,9 @@ CHECKS = {
               " ctx: for HTTP reads 0..2 other readers are already parked on the same logical connection."
               " ctx (http write): after the blocked Write has failed, 0..2 further Writes on the same connection object with a context that is already done must fail too, without a panic."
               " idle: 0..2 deliveries that parked for lack of a reader and were then given up by their sender (the POST's context ended) precede the idle period."
-              " first: 2..8 POSTs carrying the first envelopes of one source enter ServeHTTP at the same instant (spin barrier, no sockets), on a fresh endpoint, 8..24 rounds per case: the source is announced as one logical connection and all envelopes are readable from it."),
-        jobs=[dict(test="TestC19RoundTrip", quick=480, thorough=8000), dict(test="TestC19Raw", quick=800, thorough=20000), dict(test="TestC19Ctx", quick=48, thorough=400, shards=8), dict(test="TestC19First", quick=96, thorough=1600, shards=8),
+              " first: 2..8 POSTs carrying the first envelopes of one source enter ServeHTTP at the same instant (spin barrier, no sockets), on a fresh endpoint, 8..24 rounds per case: the source is announced as one logical connection and all envelopes are readable from it."
+              " slow-reader (real time): 2..5 envelopes over a loopback WebSocket or HTTP connection while the reader pauses 7 s (thorough: up to 21 s) before its second Read; everything written without error is read, in order."),
+        jobs=[dict(test="TestC19RoundTrip", quick=480, thorough=8000), dict(test="TestC19Raw", quick=800, thorough=20000), dict(test="TestC19Ctx", quick=48, thorough=400, shards=8), dict(test="TestC19First", quick=96, thorough=1600, shards=8), dict(test="TestC19SlowReader", quick=4, thorough=24, shards=4),
               dict(test="TestC19Idle", quick=400, thorough=6000, shards=8), dict(test="TestC19Conc", quick=320, thorough=4000), dict(test="TestC19Reuse", quick=480, thorough=6000), dict(test="FuzzC19Decode", kind="fuzz", quick=0, thorough=120)],
         floors={"TestC19RoundTrip:rt.websocket": 0.25, "TestC19RoundTrip:rt.http": 0.2, "TestC19RoundTrip:rt.channel": 0.1, "TestC19Conc:conc.http": 0.25, "TestC19Idle:idle.fresh=true": 0.15, "TestC09Late:late.some_complete=true": 0.4},
         assumptions=COMMON_ASSUMPTIONS + ["WebSocket and HTTP sub-checks use real loopback sockets and wall-clock budgets; exceeding a budget is reported as inconclusive (exit 2), never as a violation"],
@@ -322,7 +329,8 @@ CHECKS = {
               "The only oracle is the race detector (GORACE=halt_on_error=1): a report with at least one goat frame is a violation, a report without one is a harness bug (exit 2). Non-trivial = a workload with >=2 user goroutines on one connection; distinct = (family, case)."
               " Family sendstorm: 1..8 streams and 0..4 unary loops keep sending while the write side and the read side of the connection fail in the same instant."
               " Family proxy-overflow-storm: one source floods a destination whose parked writes are released by a concurrent goroutine - no settle point in between, because synctest.Wait orders the phases it separates for the race detector."
-              " Families c01net (concurrent calls on a ClientConn over real loopback WebSocket / HTTP) and c19conc (concurrent writers on one transport connection) run under the race detector too."),
+              " Families c01net (concurrent calls on a ClientConn over real loopback WebSocket / HTTP) and c19conc (concurrent writers on one transport connection) run under the race detector too."
+              " Family duplex: handlers and callers that receive in one goroutine and send in another, 1..4 streams, ended mid-traffic by cancel, deadline, Stop or a read failure."),
         jobs=[dict(test="TestC15", race=True, cpu="1,2,4,16", quick=960, thorough=24000)],
         floors={"TestC15:family=c02": 0.05, "TestC15:family=c10": 0.02, "TestC15:family=c18": 0.02, "TestC15:gomaxprocs=16": 0.15, "TestC15:gomaxprocs=1": 0.15, "TestC15:family=c18storm": 0.02},
         assumptions=COMMON_ASSUMPTIONS + ["the race detector only sees the interleavings that were executed: this is search, not proof"],
